@@ -67,17 +67,17 @@ type opResult struct {
 }
 
 type renv struct {
-	tcp    bool
-	r      *network.Router
-	rptr   string
-	lm     *network.LocalManager
-	peers  []*peerHost
-	conns  []*connRec
-	sched  *lib.Sched
-	stamp  int64
-	mu     sync.Mutex
-	sends  []*opResult
-	stops  []*opResult
+	tcp          bool
+	r            *network.Router
+	rptr         string
+	lm           *network.LocalManager
+	peers        []*peerHost
+	conns        []*connRec
+	sched        *lib.Sched
+	stamp        int64
+	mu           sync.Mutex
+	sends        []*opResult
+	stops        []*opResult
 	stopRetStamp []int64
 
 	// hook events
